@@ -26,23 +26,138 @@ pub const STRIKE: u8 = 8;
 pub const REVERSE: u8 = 16;
 pub const BLINK: u8 = 32;
 
+/// Colour of a cell, interned: the 17 documented names and `rrggbb` strings are encoded in the
+/// number itself; anything else (only a defective implementation produces it) goes through a
+/// per-process side table.  Equality and hashing are by value of the original string.
+#[derive(Clone, Copy, PartialEq, Eq, Hash)]
+pub struct Col(u32);
+
+const COL_NAMES: [&str; 17] = [
+    "default", "black", "red", "green", "brown", "blue", "magenta", "cyan", "white", "brightblack",
+    "brightred", "brightgreen", "brightbrown", "brightblue", "brightmagenta", "brightcyan", "brightwhite",
+];
+
+thread_local! {
+    static ODD_COLOURS: std::cell::RefCell<Vec<String>> = std::cell::RefCell::new(Vec::new());
+}
+
+impl Col {
+    pub const DEFAULT: Col = Col(0);
+    pub fn of(s: &str) -> Col {
+        if let Some(i) = COL_NAMES.iter().position(|n| *n == s) {
+            return Col(i as u32);
+        }
+        if s.len() == 6 && s.bytes().all(|b| b.is_ascii_digit() || (b'a'..=b'f').contains(&b)) {
+            return Col(0x0100_0000 + u32::from_str_radix(s, 16).unwrap());
+        }
+        ODD_COLOURS.with(|t| {
+            let mut t = t.borrow_mut();
+            let i = match t.iter().position(|x| x == s) {
+                Some(i) => i,
+                None => {
+                    t.push(s.to_string());
+                    t.len() - 1
+                }
+            };
+            Col(0x0200_0000 + i as u32)
+        })
+    }
+    pub fn name(&self) -> String {
+        if self.0 < 17 {
+            COL_NAMES[self.0 as usize].to_string()
+        } else if self.0 < 0x0200_0000 {
+            format!("{:06x}", self.0 - 0x0100_0000)
+        } else {
+            ODD_COLOURS.with(|t| t.borrow()[(self.0 - 0x0200_0000) as usize].clone())
+        }
+    }
+    /// a documented colour name or a hexadecimal colour string
+    pub fn is_valid(&self) -> bool {
+        self.0 < 0x0200_0000
+    }
+}
+
+impl From<&str> for Col {
+    fn from(s: &str) -> Col {
+        Col::of(s)
+    }
+}
+impl From<String> for Col {
+    fn from(s: String) -> Col {
+        Col::of(&s)
+    }
+}
+impl std::fmt::Debug for Col {
+    fn fmt(&self, f: &mut std::fmt::Formatter<'_>) -> std::fmt::Result {
+        write!(f, "{:?}", self.name())
+    }
+}
+impl std::fmt::Display for Col {
+    fn fmt(&self, f: &mut std::fmt::Formatter<'_>) -> std::fmt::Result {
+        write!(f, "{}", self.name())
+    }
+}
+
+/// Cell text with a small-string representation (a cell almost always holds one character).
+#[derive(Clone, PartialEq, Eq, Hash)]
+pub enum Txt {
+    Inline(u8, [u8; 14]),
+    Heap(Box<str>),
+}
+
+impl Txt {
+    pub fn as_str(&self) -> &str {
+        match self {
+            Txt::Inline(n, b) => unsafe { std::str::from_utf8_unchecked(&b[..*n as usize]) },
+            Txt::Heap(s) => s,
+        }
+    }
+}
+impl From<&str> for Txt {
+    fn from(s: &str) -> Txt {
+        if s.len() <= 14 {
+            let mut b = [0u8; 14];
+            b[..s.len()].copy_from_slice(s.as_bytes());
+            Txt::Inline(s.len() as u8, b)
+        } else {
+            Txt::Heap(s.into())
+        }
+    }
+}
+impl From<String> for Txt {
+    fn from(s: String) -> Txt {
+        Txt::from(s.as_str())
+    }
+}
+impl std::ops::Deref for Txt {
+    type Target = str;
+    fn deref(&self) -> &str {
+        self.as_str()
+    }
+}
+impl std::fmt::Debug for Txt {
+    fn fmt(&self, f: &mut std::fmt::Formatter<'_>) -> std::fmt::Result {
+        write!(f, "{:?}", self.as_str())
+    }
+}
+impl PartialEq<&str> for Txt {
+    fn eq(&self, o: &&str) -> bool {
+        self.as_str() == *o
+    }
+}
+
 #[derive(Clone, PartialEq, Eq, Hash, Debug)]
 pub struct Cell {
     /// cell text, NFC-normalised
-    pub data: String,
-    pub fg: String,
-    pub bg: String,
+    pub data: Txt,
+    pub fg: Col,
+    pub bg: Col,
     pub flags: u8,
 }
 
 impl Cell {
     pub fn blank(reverse: bool) -> Cell {
-        Cell {
-            data: " ".into(),
-            fg: "default".into(),
-            bg: "default".into(),
-            flags: if reverse { REVERSE } else { 0 },
-        }
+        Cell { data: " ".into(), fg: Col::DEFAULT, bg: Col::DEFAULT, flags: if reverse { REVERSE } else { 0 } }
     }
     pub fn of(c: &CharOpts) -> Cell {
         let mut flags = 0;
@@ -64,15 +179,15 @@ impl Cell {
         if c.blink {
             flags |= BLINK;
         }
-        let data = if c.data.is_ascii() { c.data.clone() } else { c.data.nfc().collect() };
-        Cell { data, fg: c.fg.clone(), bg: c.bg.clone(), flags }
+        let data: Txt = if c.data.is_ascii() { c.data.as_str().into() } else { c.data.nfc().collect::<String>().into() };
+        Cell { data, fg: Col::of(&c.fg), bg: Col::of(&c.bg), flags }
     }
     pub fn with_data(&self, data: &str) -> Cell {
-        Cell { data: data.to_string(), fg: self.fg.clone(), bg: self.bg.clone(), flags: self.flags }
+        Cell { data: data.into(), fg: self.fg, bg: self.bg, flags: self.flags }
     }
     pub fn short(&self) -> String {
         let mut s = format!("{:?}", self.data);
-        if self.fg != "default" || self.bg != "default" || self.flags != 0 {
+        if self.fg != Col::DEFAULT || self.bg != Col::DEFAULT || self.flags != 0 {
             s.push_str(&format!("[{}/{}/{:02x}]", self.fg, self.bg, self.flags));
         }
         s
